@@ -1,5 +1,546 @@
-import CssVerif.Model.SheetEdit
+import CssVerif.Model.SheetValid
 /-! helper lemmas for C09 (rule-list edit machine) -/
 namespace CssVerif.SheetEdit
+open CssVerif.Proto (Cps)
+
+/-! ## kind lists -/
+
+theorem topK_sublist {l l' : List Kind} (h : TopK l) (hs : l'.Sublist l) : TopK l' :=
+  List.Pairwise.sublist hs h
+
+/-- inserting `k` at `i` keeps the order when everything before may stand before `k` and `k` before everything after -/
+theorem topK_insert {l : List Kind} {k : Kind} (i : Nat) (h : TopK l)
+    (hb : ∀ x ∈ l.take i, Before x k) (ha : ∀ y ∈ l.drop i, Before k y) :
+    TopK (l.take i ++ k :: l.drop i) := by
+  unfold TopK at *
+  rw [← List.take_append_drop i l] at h
+  rw [List.pairwise_append] at h ⊢
+  refine ⟨h.1, ?_, ?_⟩
+  · rw [List.pairwise_cons]; exact ⟨ha, h.2.1⟩
+  · intro x hx y hy
+    rcases List.mem_cons.mp hy with rfl | hy
+    · exact hb x hx
+    · exact h.2.2 x hx y hy
+
+theorem hasKind_false {ks l} (h : hasKind ks l = false) : ∀ x ∈ l, x ∉ ks := by
+  unfold hasKind at h
+  simpa using h
+
+theorem hasKind_true {ks l} (h : hasKind ks l = true) : ∃ x ∈ l, x ∈ ks := by
+  unfold hasKind at h
+  simpa using h
+
+theorem hasKind_cons {ks k rs} : hasKind ks (k :: rs) = (decide (k ∈ ks) || hasKind ks rs) := by
+  simp [hasKind]
+
+theorem topK_tail_no_charset {a : Kind} {t : List Kind} (h : TopK (a :: t)) : ∀ y ∈ t, y ≠ .charset := by
+  unfold TopK at h
+  rw [List.pairwise_cons] at h
+  intro y hy
+  exact (h.1 y hy).2
+
+/-- no @charset from `i` on, when `i > 0` or the first rule is not @charset -/
+theorem topK_drop_no_charset {l : List Kind} (h : TopK l) (i : Nat)
+    (hi : 0 < i ∨ firstIs [.charset] l = false) : ∀ y ∈ l.drop i, y ≠ .charset := by
+  cases l with
+  | nil => simp
+  | cons a t =>
+    intro y hy
+    cases i with
+    | zero =>
+      rcases hi with hi | hi
+      · omega
+      · simp only [List.drop_zero, List.mem_cons] at hy
+        rcases hy with rfl | hy
+        · intro e; subst e; simp [firstIs] at hi
+        · exact topK_tail_no_charset h y hy
+    | succ n =>
+      simp only [List.drop_succ_cons] at hy
+      exact topK_tail_no_charset h y (List.mem_of_mem_drop hy)
+
+theorem afterLastOf_none {ks l} (h : hasKind ks l = false) : afterLastOf ks l = 0 := by
+  induction l with
+  | nil => rfl
+  | cons k rs ih =>
+    rw [hasKind_cons] at h
+    simp only [Bool.or_eq_false_iff, decide_eq_false_iff_not] at h
+    simp [afterLastOf, h.1, h.2]
+
+/-- the list splits at the last rule with a kind in `ks` -/
+theorem afterLastOf_split {ks l} (h : hasKind ks l = true) :
+    ∃ a e b, l = a ++ e :: b ∧ e ∈ ks ∧ hasKind ks b = false ∧ afterLastOf ks l = a.length + 1 := by
+  induction l with
+  | nil => simp [hasKind] at h
+  | cons k rs ih =>
+    by_cases h1 : hasKind ks rs = true
+    · obtain ⟨a, e, b, hl, he, hb, hn⟩ := ih h1
+      refine ⟨k :: a, e, b, by simp [hl], he, hb, ?_⟩
+      simp [afterLastOf, h1, hn]
+    · have h1' : hasKind ks rs = false := by simpa using h1
+      rw [hasKind_cons, h1'] at h
+      have hk : k ∈ ks := by simpa using h
+      exact ⟨[], k, rs, rfl, hk, h1', by simp [afterLastOf, h1', hk]⟩
+
+theorem firstIdx_some {ks l j} (h : firstIdx ks l = some j) :
+    ∃ a e b, l = a ++ e :: b ∧ a.length = j ∧ hasKind ks a = false ∧ e ∈ ks := by
+  induction l generalizing j with
+  | nil => simp [firstIdx] at h
+  | cons k rs ih =>
+    unfold firstIdx at h
+    by_cases hk : k ∈ ks
+    · simp only [List.contains_eq_mem, hk, decide_true, if_true, Option.some.injEq] at h
+      exact ⟨[], k, rs, rfl, by simpa using h, by simp [hasKind], hk⟩
+    · simp only [List.contains_eq_mem, hk, decide_false, Bool.false_eq_true, if_false, Option.map_eq_some_iff] at h
+      obtain ⟨j', hj', rfl⟩ := h
+      obtain ⟨a, e, b, hl, ha, hna, he⟩ := ih hj'
+      refine ⟨k :: a, e, b, by simp [hl], by simp [ha], ?_, he⟩
+      rw [hasKind_cons]; simp [hk, hna]
+
+theorem firstIdx_none {ks l} (h : firstIdx ks l = none) : hasKind ks l = false := by
+  induction l with
+  | nil => rfl
+  | cons k rs ih =>
+    unfold firstIdx at h
+    by_cases hk : k ∈ ks
+    · simp [hk] at h
+    · simp only [List.contains_eq_mem, hk, decide_false, Bool.false_eq_true, if_false, Option.map_eq_none_iff] at h
+      rw [hasKind_cons]; simp [hk, ih h]
+
+/-! ## facts about the generated kind tables (re-checked whenever the tables change) -/
+
+theorem f_comment_before : ∀ k ∈ Gen.commentKinds, ∀ x, Before x k := by
+  intro k hk x; cases k <;> cases x <;> revert hk <;> decide
+theorem f_comment_after : ∀ k ∈ Gen.commentKinds, ∀ y, y ≠ .charset → Before k y := by
+  intro k hk y; cases k <;> cases y <;> revert hk <;> decide
+theorem f_charset_after : ∀ y, y ≠ .charset → Before .charset y := by
+  intro y; cases y <;> decide
+theorem f_imp_before : ∀ x, x ∉ Gen.importBefore → Before x .imp := by
+  intro x; cases x <;> decide
+theorem f_imp_after : ∀ y, y ≠ .charset → Before .imp y := by
+  intro y; cases y <;> decide
+theorem f_imp_skip : ∀ e ∈ Gen.importFirstSkip, Before e .imp := by
+  intro e; cases e <;> decide
+theorem f_ns_after : ∀ y, y ∉ Gen.nsAfter → Before .ns y := by
+  intro y; cases y <;> decide
+theorem f_ns_before : ∀ x, x ∉ Gen.nsBefore → Before x .ns := by
+  intro x; cases x <;> decide
+theorem f_ns_start_after : ∀ y, y ∉ Gen.nsStartAfter → Before .ns y := by
+  intro y; cases y <;> decide
+theorem f_ns_mid : ∀ x, x ∉ Gen.nsFirstBefore → x ∉ Gen.nsStartAfter → x ∉ [Kind.ns] → Before x .ns := by
+  intro x; cases x <;> decide
+theorem f_ns_pre : ∀ x e, e ∈ Gen.nsStartAfter → Before x e → Before x .ns := by
+  intro x e; cases x <;> cases e <;> decide
+theorem f_ns_pre' : ∀ e ∈ Gen.nsStartAfter, Before e .ns := by
+  intro e; cases e <;> decide
+theorem f_vars_after : ∀ y, y ∉ Gen.varsAfter → Before .vars y := by
+  intro y; cases y <;> decide
+theorem f_vars_before : ∀ x, x ∉ Gen.varsBefore → Before x .vars := by
+  intro x; cases x <;> decide
+theorem f_vars_first : ∀ x, x ∉ Gen.varsFirstBefore → x ∉ [Kind.vars] → Before x .vars := by
+  intro x; cases x <;> decide
+theorem f_vars_nobug : ∀ y, y ∉ [Kind.charset, .imp, .ns] → Before .vars y := by
+  intro y; cases y <;> decide
+theorem f_other_before : ∀ k, k ≠ .charset → k ≠ .imp → k ≠ .ns → k ≠ .vars → ∀ x, Before x k := by
+  intro k; cases k <;> intro _ _ _ _ x <;> cases x <;> first | contradiction | decide
+theorem f_other_after : ∀ k, k ≠ .charset → k ≠ .imp → k ≠ .ns → k ≠ .vars →
+    ∀ y, y ∉ Gen.otherAfter → Before k y := by
+  intro k; cases k <;> intro _ _ _ _ y <;> cases y <;> first | contradiction | decide
+
+theorem take_succ_append {α} (a : List α) (e : α) (b : List α) : (a ++ e :: b).take (a.length + 1) = a ++ [e] := by
+  induction a <;> simp_all
+theorem drop_succ_append {α} (a : List α) (e : α) (b : List α) : (a ++ e :: b).drop (a.length + 1) = b := by
+  induction a <;> simp_all
+theorem take_len_append {α} (a b : List α) : (a ++ b).take a.length = a := by
+  induction a <;> simp_all
+theorem drop_len_append {α} (a b : List α) : (a ++ b).drop a.length = b := by
+  induction a <;> simp_all
+
+/-- ordered add after the last rule of the same kind -/
+theorem topK_insert_after_last {l : List Kind} {k : Kind} (h : TopK l) (hk : hasKind [k] l = true)
+    (hkk : Before k k) :
+    TopK (l.take (afterLastOf [k] l) ++ k :: l.drop (afterLastOf [k] l)) := by
+  obtain ⟨a, e, b, hl, he, hb, hn⟩ := afterLastOf_split hk
+  have : e = k := by simpa using he
+  subst this
+  rw [hn]
+  subst hl
+  have h' := h
+  unfold TopK at h'
+  rw [List.pairwise_append, List.pairwise_cons] at h'
+  apply topK_insert _ h
+  · intro x hx
+    rw [take_succ_append] at hx
+    rcases List.mem_append.mp hx with hx | hx
+    · exact h'.2.2 x hx e (by simp)
+    · have : x = e := by simpa using hx
+      subst this; exact hkk
+  · intro y hy
+    rw [drop_succ_append] at hy
+    exact h'.2.1.1 y hy
+
+theorem firstIs_charset_of {ks l} (hc : Kind.charset ∈ ks) (h : firstIs ks l = false) :
+    firstIs [.charset] l = false := by
+  cases l with
+  | nil => rfl
+  | cons a t =>
+    simp only [firstIs, List.contains_eq_mem, decide_eq_false_iff_not] at h ⊢
+    intro ha
+    have : a = .charset := by simpa using ha
+    subst this; exact h hc
+
+/-- `idx = 0 → the first rule is not @charset` gives "no @charset from idx on" -/
+theorem no_charset_from {l : List Kind} (h : TopK l) (idx : Nat)
+    (hc : ¬ (idx = 0 ∧ firstIs [.charset] l = true)) : ∀ y ∈ l.drop idx, y ≠ .charset := by
+  apply topK_drop_no_charset h
+  by_cases h0 : idx = 0
+  · right
+    cases hf : firstIs [.charset] l with
+    | false => rfl
+    | true => exact absurd ⟨h0, hf⟩ hc
+  · left; omega
+
+theorem place_charset0 {l : List Kind} (h : TopK l) (hf : firstIs [.charset] l = false) :
+    TopK (l.take 0 ++ .charset :: l.drop 0) := by
+  apply topK_insert 0 h
+  · simp
+  · intro y hy
+    exact f_charset_after y (topK_drop_no_charset h 0 (Or.inr hf) y hy)
+
+theorem place_comment {l : List Kind} {k : Kind} (h : TopK l) (hk : k ∈ Gen.commentKinds) (idx : Nat)
+    (hc : ¬ (idx = 0 ∧ firstIs [.charset] l = true)) : TopK (l.take idx ++ k :: l.drop idx) := by
+  apply topK_insert idx h
+  · intro x _; exact f_comment_before k hk x
+  · intro y hy; exact f_comment_after k hk y (no_charset_from h idx hc y hy)
+
+theorem place_imp_at {l : List Kind} (h : TopK l) (idx : Nat)
+    (hc : ¬ (idx = 0 ∧ firstIs [.charset] l = true)) (hb : hasKind Gen.importBefore (l.take idx) = false) :
+    TopK (l.take idx ++ .imp :: l.drop idx) := by
+  apply topK_insert idx h
+  · intro x hx; exact f_imp_before x (hasKind_false hb x hx)
+  · intro y hy; exact f_imp_after y (no_charset_from h idx hc y hy)
+
+theorem place_imp_first {l : List Kind} (h : TopK l) :
+    TopK (l.take (if firstIs Gen.importFirstSkip l then 1 else 0) ++ .imp ::
+      l.drop (if firstIs Gen.importFirstSkip l then 1 else 0)) := by
+  cases hf : firstIs Gen.importFirstSkip l with
+  | true =>
+    simp only [if_true]
+    cases l with
+    | nil => simp [firstIs] at hf
+    | cons e t =>
+      apply topK_insert 1 h
+      · intro x hx
+        have : x = e := by simpa using hx
+        subst this
+        exact f_imp_skip x (by simpa [firstIs] using hf)
+      · intro y hy
+        simp only [List.drop_succ_cons, List.drop_zero] at hy
+        exact f_imp_after y (topK_tail_no_charset h y hy)
+  | false =>
+    simp only [Bool.false_eq_true, if_false]
+    apply topK_insert 0 h
+    · simp
+    · intro y hy
+      exact f_imp_after y (topK_drop_no_charset h 0 (Or.inr (firstIs_charset_of (by decide) hf)) y hy)
+
+theorem place_ns_at {l : List Kind} (h : TopK l) (idx : Nat)
+    (ha : hasKind Gen.nsAfter (l.drop idx) = false) (hb : hasKind Gen.nsBefore (l.take idx) = false) :
+    TopK (l.take idx ++ .ns :: l.drop idx) := by
+  apply topK_insert idx h
+  · intro x hx; exact f_ns_before x (hasKind_false hb x hx)
+  · intro y hy; exact f_ns_after y (hasKind_false ha y hy)
+
+theorem place_vars_at {l : List Kind} (h : TopK l) (idx : Nat)
+    (ha : hasKind Gen.varsAfter (l.drop idx) = false) (hb : hasKind Gen.varsBefore (l.take idx) = false) :
+    TopK (l.take idx ++ .vars :: l.drop idx) := by
+  apply topK_insert idx h
+  · intro x hx; exact f_vars_before x (hasKind_false hb x hx)
+  · intro y hy; exact f_vars_after y (hasKind_false ha y hy)
+
+theorem place_other_at {l : List Kind} {k : Kind} (h : TopK l) (idx : Nat)
+    (h1 : k ≠ .charset) (h2 : k ≠ .imp) (h3 : k ≠ .ns) (h4 : k ≠ .vars)
+    (ha : hasKind Gen.otherAfter (l.drop idx) = false) :
+    TopK (l.take idx ++ k :: l.drop idx) := by
+  apply topK_insert idx h
+  · intro x _; exact f_other_before k h1 h2 h3 h4 x
+  · intro y hy; exact f_other_after k h1 h2 h3 h4 y (hasKind_false ha y hy)
+
+theorem place_other_end {l : List Kind} {k : Kind} (h : TopK l)
+    (h1 : k ≠ .charset) (h2 : k ≠ .imp) (h3 : k ≠ .ns) (h4 : k ≠ .vars) :
+    TopK (l.take l.length ++ k :: l.drop l.length) := by
+  apply topK_insert l.length h
+  · intro x _; exact f_other_before k h1 h2 h3 h4 x
+  · simp
+
+/-- the part of the list up to the last @charset/@import may stand before @namespace -/
+theorem ns_prefix_before {l : List Kind} (h : TopK l) :
+    ∀ x ∈ l.take (afterLastOf Gen.nsStartAfter l), Before x .ns := by
+  cases hk : hasKind Gen.nsStartAfter l with
+  | false => rw [afterLastOf_none hk]; simp
+  | true =>
+    obtain ⟨a, e, b, hl, he, _, hn⟩ := afterLastOf_split hk
+    rw [hn]; subst hl
+    unfold TopK at h
+    rw [List.pairwise_append] at h
+    intro x hx
+    rw [take_succ_append] at hx
+    rcases List.mem_append.mp hx with hx | hx
+    · exact f_ns_pre x e he (h.2.2 x hx e (by simp))
+    · have : x = e := by simpa using hx
+      subst this; exact f_ns_pre' x he
+
+theorem ns_suffix_free (l : List Kind) :
+    hasKind Gen.nsStartAfter (l.drop (afterLastOf Gen.nsStartAfter l)) = false := by
+  cases hk : hasKind Gen.nsStartAfter l with
+  | false => rw [afterLastOf_none hk]; simpa using hk
+  | true =>
+    obtain ⟨a, e, b, hl, _, hb, hn⟩ := afterLastOf_split hk
+    rw [hn]; subst hl
+    rw [drop_succ_append]; exact hb
+
+/-- ordered add of the first @namespace rule: at `start + j`, where nothing in `[start, start+j)` is in
+`nsFirstBefore` -/
+theorem place_ns_first {l : List Kind} (h : TopK l) (hno : hasKind [.ns] l = false) (j : Nat)
+    (hmid : hasKind Gen.nsFirstBefore ((l.drop (afterLastOf Gen.nsStartAfter l)).take j) = false) :
+    TopK (l.take (afterLastOf Gen.nsStartAfter l + j) ++ .ns :: l.drop (afterLastOf Gen.nsStartAfter l + j)) := by
+  apply topK_insert _ h
+  · intro x hx
+    rw [List.take_add] at hx
+    rcases List.mem_append.mp hx with hx | hx
+    · exact ns_prefix_before h x hx
+    · have h1 := hasKind_false hmid x hx
+      have h2 := hasKind_false (ns_suffix_free l) x (List.mem_of_mem_take hx)
+      have h3 := hasKind_false hno x (List.mem_of_mem_drop (List.mem_of_mem_take hx))
+      exact f_ns_mid x h1 h2 h3
+  · intro y hy
+    rw [← List.drop_drop] at hy
+    exact f_ns_start_after y (hasKind_false (ns_suffix_free l) y (List.mem_of_mem_drop hy))
+
+theorem place_vars_first {l : List Kind} (h : TopK l) (hno : hasKind [.vars] l = false) (j : Nat)
+    (hpre : hasKind Gen.varsFirstBefore (l.take j) = false)
+    (hpost : hasKind [.charset, .imp, .ns] (l.drop j) = false) :
+    TopK (l.take j ++ .vars :: l.drop j) := by
+  apply topK_insert _ h
+  · intro x hx
+    exact f_vars_first x (hasKind_false hpre x hx) (hasKind_false hno x (List.mem_of_mem_take hx))
+  · intro y hy
+    exact f_vars_nobug y (hasKind_false hpost y hy)
+
+/-- **the position checks keep the order**: whenever `place` answers "insert at `i`", inserting there keeps `TopK` —
+for every kind, every index and both modes, outside the two listed regions -/
+theorem place_topK (l : List Kind) (k : Kind) (idx : Nat) (inOrder : Bool) (i : Nat)
+    (h : TopK l) (hp : place l k idx inOrder = .at i)
+    (hbug : ¬ (inOrder = true ∧ k = .vars ∧ varsScanBug l = true))
+    (hfb : inOrder = true → orderedFallback l k = true → idx = l.length) :
+    TopK (l.take i ++ k :: l.drop i) := by
+  unfold place at hp
+  split at hp
+  · -- @charset
+    rename_i hk; subst hk
+    split at hp
+    · split at hp
+      · cases hp
+      · rename_i hf
+        injection hp with hp; subst hp
+        exact place_charset0 h (by simpa using hf)
+    · split at hp
+      · cases hp
+      · rename_i hc
+        injection hp with hp; subst hp
+        simp only [Bool.or_eq_true, decide_eq_true_eq, not_or] at hc
+        have : idx = 0 := by simpa using hc.1
+        subst this
+        exact place_charset0 h (by simpa using hc.2)
+  · split at hp
+    · -- comment / unknown, not ordered
+      rename_i hk1 hk
+      simp only [Bool.and_eq_true, Bool.not_eq_true', List.contains_eq_mem, decide_eq_true_eq] at hk
+      split at hp
+      · cases hp
+      · rename_i hc
+        injection hp with hp; subst hp
+        exact place_comment h hk.1 idx (by simpa using hc)
+    · split at hp
+      · -- @import
+        rename_i hk; subst hk
+        split at hp
+        · split at hp
+          · rename_i hex
+            injection hp with hp; subst hp
+            exact topK_insert_after_last h hex (by decide)
+          · have := place_imp_first h
+            split at hp <;> rename_i hf <;> injection hp with hp <;> subst hp
+            · simpa [hf] using this
+            · simpa [hf] using this
+        · split at hp
+          · cases hp
+          · split at hp
+            · cases hp
+            · rename_i hc hb
+              injection hp with hp; subst hp
+              exact place_imp_at h idx (by simpa using hc) (by simpa using hb)
+      · split at hp
+        · -- @namespace
+          rename_i hk; subst hk
+          split at hp
+          · split at hp
+            · rename_i hex
+              injection hp with hp; subst hp
+              exact topK_insert_after_last h hex (by decide)
+            · rename_i hord hex
+              have hno : hasKind [.ns] l = false := by simpa using hex
+              dsimp only at hp
+              split at hp
+              · rename_i j hj
+                injection hp with hp; subst hp
+                obtain ⟨a, e, b, hl, ha, hna, _⟩ := firstIdx_some hj
+                apply place_ns_first h hno
+                rw [hl, ← ha, take_len_append]; exact hna
+              · rename_i hj
+                injection hp with hp; subst hp
+                have hlen : idx = l.length := hfb hord (by simp [orderedFallback, hno, hj])
+                subst hlen
+                have hle : afterLastOf Gen.nsStartAfter l ≤ l.length := by
+                  cases hk : hasKind Gen.nsStartAfter l with
+                  | false => rw [afterLastOf_none hk]; omega
+                  | true =>
+                    obtain ⟨a, e, b, hl, _, _, hn⟩ := afterLastOf_split hk
+                    rw [hn, hl]; simp
+                have := place_ns_first h hno (l.length - afterLastOf Gen.nsStartAfter l) (by
+                  have := firstIdx_none hj
+                  apply Bool.eq_false_iff.mpr
+                  intro hc
+                  obtain ⟨x, hx, hxk⟩ := hasKind_true hc
+                  exact hasKind_false this x (List.mem_of_mem_take hx) hxk)
+                rwa [Nat.add_sub_cancel' hle] at this
+          · split at hp
+            · cases hp
+            · split at hp
+              · cases hp
+              · rename_i ha hb
+                injection hp with hp; subst hp
+                exact place_ns_at h idx (by simpa using ha) (by simpa using hb)
+        · split at hp
+          · -- @variables
+            rename_i hk; subst hk
+            split at hp
+            · split at hp
+              · rename_i hex
+                injection hp with hp; subst hp
+                exact topK_insert_after_last h hex (by decide)
+              · rename_i hord hex
+                have hno : hasKind [.vars] l = false := by simpa using hex
+                split at hp
+                · rename_i j hj
+                  injection hp with hp; subst hp
+                  obtain ⟨a, e, b, hl, ha, hna, _⟩ := firstIdx_some hj
+                  apply place_vars_first h hno
+                  · rw [hl, ← ha, take_len_append]; exact hna
+                  · cases hpost : hasKind [.charset, .imp, .ns] (List.drop j l) with
+                    | false => rfl
+                    | true => exact absurd ⟨hord, rfl, by simp [varsScanBug, hno, hj, hpost]⟩ hbug
+                · rename_i hj
+                  injection hp with hp; subst hp
+                  have hlen : idx = l.length := hfb hord (by simp [orderedFallback, hno, hj])
+                  subst hlen
+                  apply place_vars_first h hno
+                  · have := firstIdx_none hj
+                    apply Bool.eq_false_iff.mpr
+                    intro hc
+                    obtain ⟨x, hx, hxk⟩ := hasKind_true hc
+                    exact hasKind_false this x (List.mem_of_mem_take hx) hxk
+                  · simp [hasKind]
+            · split at hp
+              · cases hp
+              · split at hp
+                · cases hp
+                · rename_i ha hb
+                  injection hp with hp; subst hp
+                  exact place_vars_at h idx (by simpa using ha) (by simpa using hb)
+          · -- every other kind
+            rename_i h1 _ h2 h3 h4
+            split at hp
+            · injection hp with hp; subst hp
+              exact place_other_end h h1 h2 h3 h4
+            · split at hp
+              · cases hp
+              · rename_i ha
+                injection hp with hp; subst hp
+                exact place_other_at h idx h1 h2 h3 h4 (by simpa using ha)
+
+/-! ## rule lists -/
+
+@[simp] theorem adopt_kind (r : Rule) : r.adopt.kind = r.kind := rfl
+@[simp] theorem detach_kind (r : Rule) : r.detach.kind = r.kind := rfl
+@[simp] theorem kindsOf_nil : kindsOf [] = [] := rfl
+@[simp] theorem kindsOf_length (l : List Rule) : (kindsOf l).length = l.length := by simp [kindsOf]
+
+theorem kindsOf_pyInsert (l : List Rule) (i : Nat) (r : Rule) :
+    kindsOf (pyInsert l i r) = (kindsOf l).take i ++ r.kind :: (kindsOf l).drop i := by
+  simp [kindsOf, pyInsert, List.map_take, List.map_drop]
+
+theorem kindsOf_setEnc0 (e : Cps) (l : List Rule) : kindsOf (setEnc0 e l) = kindsOf l := by
+  cases l <;> simp [setEnc0, kindsOf]
+
+theorem kindsOf_adoptId (i : Nat) (l : List Rule) : kindsOf (adoptId i l) = kindsOf l := by
+  simp only [kindsOf, adoptId, List.map_map]
+  apply List.map_congr_left
+  intro r _
+  simp only [Function.comp]
+  split <;> rfl
+
+theorem kindsOf_sublist {l l' : List Rule} (h : l'.Sublist l) : (kindsOf l').Sublist (kindsOf l) :=
+  List.Sublist.map _ h
+
+theorem topOK_sublist {l l' : List Rule} (h : TopOK l) (hs : l'.Sublist l) : TopOK l' :=
+  topK_sublist h (kindsOf_sublist hs)
+
+theorem cleanLoop_sublist (items : Dict) (done todo removed : List Rule) :
+    (cleanLoop items done todo removed).1.Sublist (done ++ todo) := by
+  induction todo generalizing done removed with
+  | nil => simp [cleanLoop]
+  | cons r rest ih =>
+    unfold cleanLoop
+    split
+    · split
+      · exact List.Sublist.refl _
+      · exact (ih done _).trans (List.Sublist.append_left (List.sublist_cons_self r rest) done)
+    · have := ih (done ++ [r]) removed
+      simpa using this
+
+theorem cleanNamespaces_sublist (l : List Rule) : (cleanNamespaces l).1.Sublist l := by
+  simpa [cleanNamespaces] using cleanLoop_sublist (nsDict l) [] l []
+
+/-- **insertRule's hierarchy check keeps the order**, whatever the outcome (accepted, refused, raised half-way) -/
+theorem insertCore_topOK (st : St) (dict : Dict) (r : Rule) (idx : Nat) (inOrder clean track : Bool)
+    (h : TopOK st.rules)
+    (hbug : ¬ (inOrder = true ∧ r.kind = .vars ∧ varsScanBug (kindsOf st.rules) = true))
+    (hfb : inOrder = true → orderedFallback (kindsOf st.rules) r.kind = true → idx = st.rules.length) :
+    TopOK (insertCore st dict r idx inOrder clean track).1.rules := by
+  unfold insertCore
+  split
+  · exact h
+  · show TopOK (setEnc0 r.enc st.rules)
+    unfold TopOK; rw [kindsOf_setEnc0]; exact h
+  · rename_i i hp
+    have hins : TopOK (pyInsert st.rules i r) := by
+      unfold TopOK; rw [kindsOf_pyInsert]
+      exact place_topK _ _ idx inOrder i h hp hbug (by simpa using hfb)
+    have hins' : TopOK (pyInsert st.rules i r.adopt) := by
+      unfold TopOK at *; rw [kindsOf_pyInsert] at *; exact hins
+    split
+    · split
+      · exact h
+      · split
+        · have hsub := cleanNamespaces_sublist (pyInsert st.rules i r)
+          dsimp only
+          split
+          · exact topOK_sublist hins hsub
+          · split
+            · show TopOK (adoptId r.id _)
+              unfold TopOK; rw [kindsOf_adoptId]; exact topOK_sublist hins hsub
+            · exact topOK_sublist hins hsub
+        · exact hins'
+    · exact hins'
 
 end CssVerif.SheetEdit
